@@ -248,6 +248,12 @@ class Interp:
                 for x in sym:
                     items.extend(x.items if isinstance(x, AllOf) else [x])
                 return AllOf(items) if items else True
+        if fn == "zip" and e.args and not e.keywords:
+            # positional pairing of lists of the same (abstract) length; a splice pairs with the splice at the same position
+            vals = [self.ev(a) for a in e.args]
+            if all(isinstance(v, tuple) for v in vals) and len({len(v) for v in vals}) == 1:
+                return tuple(tuple(col) for col in zip(*vals))
+            raise AnalysisError("%s: zip over lists whose lengths are not known to agree: %s" % (self.where, ast.unparse(e)[:80]))
         if fn == "self._create":
             self.create = self._bind_create(e)
             return None
